@@ -30,5 +30,5 @@ cfg("regs_t", Systems='= {"bi", "chain"}', KTimes='= {"h"}', KConcs='= {"uM"}', 
     TUnits='= {"ms", "h"}')
 cfg("solver_q", Systems='= {"uni", "chain"}', KTimes='= {"s"}', KConcs='= {"M"}', KRegs="<- KRegs2", Modes='= {"solver"}',
     CallKinds="<- Calls_all", MaxCalls="= 2")
-cfg("solver_t", Systems='= {"uni", "chain", "mix"}', KTimes='= {"s"}', KConcs='= {"M"}', KRegs="<- KRegs3", Modes='= {"solver"}',
-    CallKinds="<- Calls_all", MaxCalls="= 3")
+cfg("solver_t", Systems='= {"uni", "chain"}', KTimes='= {"s"}', KConcs='= {"M"}', KRegs="<- KRegs3", Modes='= {"solver"}',
+    CallKinds="<- Calls_t", MaxCalls="= 3")
